@@ -1,8 +1,84 @@
+import NaijaVerif.Model.Strs
 import NaijaVerif.Driver.Util
-/-! Family `strs` — stub (replaced by the unit that owns this family). -/
+
+/-! Line protocol `strs` (DESIGN.md Appendix A, `str`).  Payloads are lowercase hex of the UTF-8
+bytes, `-` is the empty string; `bits` are 16 hex digits of `f64::to_bits`.
+```
+find <H> <N>              -> <index> | none | panic | timeout
+replace <H> <F> <T>       -> <hex> utf8=<0|1> | panic | timeout
+slice <S> <bitsA> <bitsB> -> <hex> utf8=<0|1>
+len <S>                   -> <n>
+split <S> <P>             -> <hex>,<hex>,… utf8=<0|1>
+splitjoin <S> <P>         -> <hex>
+upper|lower|trim <S>      -> <hex>
+tonumber <S>              -> <16 hex digits> | nan
+```
+A payload that is not valid UTF-8 is answered `bad-utf8` (the real functions take `&str`), anything
+unparsable `bad-op`. -/
 namespace NaijaVerif.Driver.StrsD
+open NaijaVerif.Strs NaijaVerif.Driver
+
+def failTok : Fail → String
+  | .oob => "panic"
+  | .underflow => "panic"
+  | .fuel => "timeout"
+
+def u8 (b : Bytes) : String := if validUtf8 b then "1" else "0"
+
+def hex16 (n : Nat) : String :=
+  String.ofList ((List.range 16).map (fun i => hexChar (n / 16 ^ (15 - i) % 16)))
+
+def unhexBits (s : String) : Option Nat :=
+  if s.length != 16 then none else
+  s.toList.foldl (fun acc c => match acc, hexDigit c with
+    | some a, some d => some (a * 16 + d)
+    | _, _ => none) (some 0)
+
+/-- Decode the payloads; `none` = bad hex, `some none` = not UTF-8. -/
+def payloads (ws : List String) : Option (Option (List Bytes)) :=
+  match ws.mapM unhex with
+  | none => none
+  | some bs => if bs.all validUtf8 then some (some bs) else some none
+
+def answer (line : String) : String :=
+  match words line with
+  | op :: args =>
+    let strArgs := if op == "slice" then args.take 1 else args
+    match payloads strArgs with
+    | none => "bad-op"
+    | some none => "bad-utf8"
+    | some (some bs) =>
+      match op, bs, args with
+      | "find", [h, n], _ =>
+        match find h n with
+        | .ok (some i) => toString i
+        | .ok none => "none"
+        | .error e => failTok e
+      | "replace", [h, f, t], _ =>
+        match replace h f t with
+        | .ok r => s!"{hex r} utf8={u8 r}"
+        | .error e => failTok e
+      | "slice", [s], [_, a, b] =>
+        match unhexBits a, unhexBits b with
+        | some a, some b => let r := sliceBits s a b; s!"{hex r} utf8={u8 r}"
+        | _, _ => "bad-op"
+      | "len", [s], _ => toString (len s)
+      | "split", [s, p], _ =>
+        let ps := split s p
+        s!"{",".intercalate (ps.map hex)} utf8={if ps.all validUtf8 then "1" else "0"}"
+      | "splitjoin", [s, p], _ => hex (join (split s p) p)
+      | "upper", [s], _ => hex (toUpper s)
+      | "lower", [s], _ => hex (toLower s)
+      | "trim", [s], _ => hex (trim s)
+      | "tonumber", [s], _ =>
+        match parseF64 s with
+        | none => "nan"
+        | some none => "nan"
+        | some (some bits) => hex16 bits
+      | _, _, _ => "bad-op"
+  | [] => "bad-op"
 
 def main : IO Unit := do
-  IO.eprintln "family strs: not built yet"
+  loop (← IO.getStdin) (← IO.getStdout) () (fun _ line => ((), answer line))
 
 end NaijaVerif.Driver.StrsD
